@@ -46,6 +46,14 @@ def body(chk):
         stamp = f"{days[j % len(days)]}{(j * 7) % 24:02d}{(j * 13) % 60:02d}{ss:02d}{ff:02d}"
         cases.append(dict(level="1.5", seed=chk.seed + 9000 + j % 3, k=0, files=("VOL",), images=(("HH", None, 1, 1),), nfp=3, ctx=dict(creation_datetime=stamp),
                           fs="local", stamp=stamp))
+    # a transient fault while the volume directory / leader / summary is fetched: open may raise, it must not return other attributes
+    for j, f in enumerate(["vol", "led", "summary", "vol"]):
+        cases.append(dict(level=("1.5", "1.1")[j % 2], seed=chk.seed + 700 + j, k=j, files=("VOL",), images=(("HH", None, 1, 1),), fs="vtrace",
+                          flaky_open=dict(file=f), ctx=dict(creation_datetime=STAMPS[j % len(STAMPS)]), stamp=f"fault-{f}"))
+    # every text field blank on its own (the others filled): the attribute is the empty string, nothing is borrowed from elsewhere
+    for j in range(16):
+        cases.append(dict(level="1.5", seed=chk.seed + 720 + j, k=j % K, files=("VOL",), images=(("HH", None, 1, 1),), fs="local", blank_text=j,
+                          ctx=dict(creation_datetime=STAMPS[j % len(STAMPS)]), stamp=f"blank-{j}"))
     # all text fields blank at once (padding only): attributes are empty strings, nothing else changes
     results, total = lc.replay(chk, cases, "volume", lambda c: f"plan={c['k']}{'r' if c.get('random_classes') else ''}:nfp={c.get('nfp')}" + (f":stamp={c['stamp'][12:]}" if c.get("stamp") else ""))
     ok = next(r for r in results if r["open"] == "ok")
